@@ -16,8 +16,8 @@ def bounded(tier, seed, fallback_for):
 
 MANIFEST = {
     "category": "exploration",
-    "technique": "bounded stand-in: real commands on generated temporary trees against independently computed expectations (contracts where listed in evidence)",
-    "text": 'check and scan are run on the same generated trees and compared (bounded).',
-    "note": "bounded; the operating system, Pygments and pathspec are outside any contract we can discharge",
+    "technique": "contracts on the real functions discharged by z3/cvc5 (pyvc) for the per-call obligations; bounded stand-in on generated temporary trees for the whole statement",
+    "text": 'check vs scan on generated trees, every way of reaching every file (bounded). Discharged for all inputs: check_file lists exactly the measurements > 30 of scan_file(lex(_read_file(path))) longest first, through the same _read_file decoding as scan; _handle_file_path applies the exclusion test; _analyze_file uses the same pipeline.',
+    "note": 'bounded for the directory walk of check_command against scan_path (two separately verified loops; their agreement is explored)',
     "design_ref": "DESIGN.md §6 C12",
 }
